@@ -8,6 +8,7 @@
 // against the element at p and no element after it (up to `right`) does.
 #![allow(unused_imports, dead_code, unused_variables, unused_mut)]
 use vstd::prelude::*;
+use std::cmp::Ordering;
 
 verus! {
 
